@@ -293,6 +293,19 @@ class ExprMixin:
         for a in core.get('inner', []):
             a2 = self.skip(a)
             if a2.get('kind') == 'CXXStdInitializerListExpr': il = self.skip(a2['inner'][0])
+        if t.kind == 'arr':
+            lst = core if core.get('kind') == 'InitListExpr' else None
+            if lst is None:
+                for a in core.get('inner', []):
+                    if self.skip(a).get('kind') == 'InitListExpr': lst = self.skip(a)
+            if lst is None: raise Unsupported('static std::array %s without initializer list' % cn)
+            els = lst.get('inner', [])
+            if len(els) == 1 and self.skip(els[0]).get('kind') == 'InitListExpr': els = self.skip(els[0]).get('inner', [])
+            save = (self.vars, self.pre); self.vars = {}; self.pre = []
+            try: vals = [self.expr(e, rvalue=True) for e in els]
+            finally: self.vars, self.pre = save
+            self.rules['static-std::array-table'] += 1
+            return 'static const %s %s = { {%s} };\n_Static_assert(%d <= %s, "static array %s initializer count");' % (t.c, cn, ', '.join(vals), len(vals), t.n, cn)
         if il is None or t.kind not in ('uset', 'pset'):
             raise Unsupported('static non-scalar %s (%s)' % (cn, t.kind))
         save = (self.vars, self.pre); self.vars = {}; self.pre = []
